@@ -2,6 +2,7 @@
 #pragma once
 #include "system/Thread.h"
 #include "message/Message.h"
+#include "util/SocketMultiplexer.h"
 #include "c18.h"
 
 namespace vs { namespace c11 {
@@ -18,7 +19,12 @@ inline Plan Gen(uint64_t seed)
    Rng cfg(seed, "config"), wl(seed, "workload");
    Plan p;
    const int extras = (int) cfg.below(3);
-   p.push_back("cfg prop=C11 sockets=" + I(cfg.below(2)) + " ownloop=" + I(cfg.oneIn(3)) + " extras=" + I(extras) + thrc::SchedCfgStr(cfg));
+   const int sockets = (int) cfg.below(2);
+   // ownloop: 0 = Thread's default loop, 1 = own loop on timed WaitForNextMessageFromOwner(), 2 = own loop that select()s on the wake-up socket FIRST and only then polls
+   //          the queue (the documented pattern for a thread with its own event loop, e.g. MessageTransceiverThread's ReflectServer): it depends on every wake-up byte.
+   // ownersel: the owner collects replies the same way (select() on GetOwnerWakeupSocket(), then GetNextReplyFromInternalThread(0) until empty)
+   const int ownloop = cfg.oneIn(3) ? 1 : (((sockets)&&(cfg.oneIn(3))) ? 2 : 0);
+   p.push_back("cfg prop=C11 sockets=" + I(sockets) + " ownloop=" + I(ownloop) + " ownersel=" + I(((sockets)&&(cfg.oneIn(3))) ? 1 : 0) + " extras=" + I(extras) + thrc::SchedCfgStr(cfg));
    std::string s = "prog 0";
    const int pre = (int) wl.below(3); if (pre) s += " S" + I(pre);     // queued before the thread is started
    s += " START";
@@ -60,7 +66,7 @@ struct Shared
 class EchoThread : public Thread
 {
 public:
-   EchoThread(bool sockets, bool ownLoop, Shared * sh) : Thread(sockets), _ownLoop(ownLoop), _sh(sh) {}
+   EchoThread(bool sockets, int ownLoop, Shared * sh) : Thread(sockets), _ownLoop(ownLoop), _sh(sh) {}
    virtual status_t MessageReceivedFromOwner(const MessageRef & m, uint32 numLeft)
    {
       if (m() == NULL) return B_SHUTTING_DOWN;
@@ -74,7 +80,25 @@ public:
    // the shape MessageTransceiverThread uses: its own event loop on the wake-up mechanism, with timed waits
    virtual void InternalThreadEntry()
    {
-      if (!_ownLoop) {Thread::InternalThreadEntry(); return;}
+      if (_ownLoop == 0) {Thread::InternalThreadEntry(); return;}
+      if (_ownLoop == 2)
+      {
+         // select first: only a wake-up byte makes this loop look at its queue
+         SocketMultiplexer sm; const int fd = GetInternalThreadWakeupSocket().GetFileDescriptor();
+         if (fd < 0) thr::ReportAndExit("no_wakeup_socket", "GetInternalThreadWakeupSocket() is invalid inside the running internal thread");
+         while(true)
+         {
+            (void) sm.RegisterSocketForReadReady(fd);
+            if (sm.WaitForEvents(MUSCLE_TIME_NEVER).IsError()) return;
+            if (sm.IsSocketReadyForRead(fd) == false) continue;
+            while(true)
+            {
+               MessageRef m; uint32 left = 0;
+               if (WaitForNextMessageFromOwner(m, 0, &left).IsError()) break;     // B_TIMED_OUT: queue empty (and the signal bytes drained): back to select()
+               if (MessageReceivedFromOwner(m, left).IsError()) return;
+            }
+         }
+      }
       while(true)
       {
          MessageRef m; uint32 left = 0;
@@ -84,15 +108,15 @@ public:
       }
    }
 private:
-   bool _ownLoop; Shared * _sh;
+   int _ownLoop; Shared * _sh;
 };
 
 inline void WarmupStatics()
 {
    // constructs the function-static pools (Socket pool etc.) that a Thread with messaging sockets touches
    Shared sh; RunResult rr; sh.res = &rr;
-   {EchoThread t(true, false, &sh); (void) t.SendMessageToInternalThread(GetMessageFromPool(1)); MessageRef r; (void) t.GetNextReplyFromInternalThread(r, 0);}
-   {EchoThread t(false, false, &sh); (void) t.SendMessageToInternalThread(GetMessageFromPool(1));}
+   {EchoThread t(true, 0, &sh); (void) t.SendMessageToInternalThread(GetMessageFromPool(1)); MessageRef r; (void) t.GetNextReplyFromInternalThread(r, 0);}
+   {EchoThread t(false, 0, &sh); (void) t.SendMessageToInternalThread(GetMessageFromPool(1));}
 }
 
 inline void Exec(const Plan & plan, RunResult & res)
@@ -104,7 +128,10 @@ inline void Exec(const Plan & plan, RunResult & res)
    Shared sh; sh.res = &res;
    thr::Begin(thrc::SchedCfgFrom(cfg));
    {
-      EchoThread t(cfg.i("sockets", 1) != 0, cfg.i("ownloop", 0) != 0, &sh);
+      const bool sockets = (cfg.i("sockets", 1) != 0);
+      EchoThread t(sockets, sockets ? (int) cfg.i("ownloop", 0) : (cfg.i("ownloop", 0) ? 1 : 0), &sh);
+      const bool ownerSel = (sockets)&&(cfg.i("ownersel", 0) != 0);
+      SocketMultiplexer ownerSm;
       auto Send = [&](int sender, int k) {for (int i=0; i<k; i++) {const uint32 w = (uint32)(sender*100000) + sh.nextSeq[sender]++; if (t.SendMessageToInternalThread(GetMessageFromPool(w)).IsOK()) {sh.sentTo[sender].push_back(w); res.stats.inc("msgs_sent");} else thr::ReportAndExit("send_failed", "SendMessageToInternalThread failed"); if (i+1 < k) thr::Yield();}};
       auto TotalSent = [&]() {size_t n = 0; for (auto & v : sh.sentTo) n += v.size(); return n;};
       auto GetReply = [&](uint64 wakeup) -> bool
@@ -125,7 +152,18 @@ inline void Exec(const Plan & plan, RunResult & res)
             sh.extrasRunning--; });
       }
       bool running = false; size_t repliesAtStart = 0; (void) repliesAtStart;
-      auto Drain = [&]() {int guard = 0; while((sh.replies.size() < TotalSent())&&(guard++ < 10000)) (void) GetReply(MUSCLE_TIME_NEVER);};
+      // the owner's select-first collection: polls until its queue is empty (only then is the next wake-up byte guaranteed), then sleeps in select() on the owner wake-up socket
+      auto SelectAndCollect = [&]()
+      {
+         while(GetReply(0)) {}
+         if (sh.replies.size() >= TotalSent()) return;
+         const int fd = t.GetOwnerWakeupSocket().GetFileDescriptor();
+         if (fd < 0) thr::ReportAndExit("no_wakeup_socket", "GetOwnerWakeupSocket() is invalid while the internal thread is running");
+         (void) ownerSm.RegisterSocketForReadReady(fd);
+         if (ownerSm.WaitForEvents(MUSCLE_TIME_NEVER).IsError()) thr::ReportAndExit("select_failed", "SocketMultiplexer::WaitForEvents failed on the owner wake-up socket");
+         if (ownerSm.IsSocketReadyForRead(fd)) res.stats.inc("owner_select_wakeups");
+      };
+      auto Drain = [&]() {int guard = 0; while((sh.replies.size() < TotalSent())&&(guard++ < 10000)) {if (ownerSel) SelectAndCollect(); else (void) GetReply(MUSCLE_TIME_NEVER);}};
       auto Shutdown = [&](bool waitToo)
       {
          if (!running) return;
@@ -168,7 +206,8 @@ inline void Exec(const Plan & plan, RunResult & res)
    thr::End();
    WatchdogDisarm();
    res.stats.inc(cfg.i("sockets", 1) ? "runs_socket_signalling" : "runs_waitcondition_signalling");
-   if (cfg.i("ownloop", 0)) res.stats.inc("runs_own_event_loop");
+   if (cfg.i("ownloop", 0) == 1) res.stats.inc("runs_own_event_loop"); if ((cfg.i("ownloop", 0) == 2)&&(cfg.i("sockets", 1))) res.stats.inc("runs_select_first_event_loop");
+   if ((cfg.i("ownersel", 0))&&(cfg.i("sockets", 1))) res.stats.inc("runs_owner_select_first"); if (cfg.i("realcv", 0)) res.stats.inc("runs_real_condition_variable_code");
    res.nontrivial = (sh.insideLog.size() >= 1)&&(thr::Stats().switches >= 2);
 }
 
